@@ -99,6 +99,10 @@ pub fn run_one(scn: &dyn Scenario, spec: &Spec) -> RunResult {
     r
 }
 
+/// Upper bound for the real-time limit of a run (milliseconds); lowered while
+/// minimising, where hundreds of candidates are tried.
+pub static TIMEOUT_CAP_MS: std::sync::atomic::AtomicU64 = std::sync::atomic::AtomicU64::new(u64::MAX);
+
 fn run_one_raw(scn: &dyn Scenario, spec: &Spec) -> RunResult {
     let start = Instant::now();
     let mut fds = [0i32; 2];
@@ -145,7 +149,7 @@ fn run_one_raw(scn: &dyn Scenario, spec: &Spec) -> RunResult {
     }
     unsafe { libc::close(fds[1]) };
     // read with timeout
-    let deadline_ms = scn.timeout_ms() as i64;
+    let deadline_ms = scn.timeout_ms().min(TIMEOUT_CAP_MS.load(std::sync::atomic::Ordering::Relaxed)) as i64;
     let mut buf: Vec<u8> = Vec::new();
     let mut hang = false;
     loop {
@@ -599,6 +603,15 @@ fn spec_from_report(seed: u64, index: u64, rep: &Value, thorough: bool) -> Spec 
 /// Delta-debug a failing run: fewer workload steps first, then fewer context
 /// switches; a candidate is kept only if it fails with the same signature.
 pub fn minimise(scn: &dyn Scenario, first: &Value, thorough: bool, effort: usize) -> (Spec, RunResult) {
+    let t0 = Instant::now();
+    let wall_budget_s = if thorough { 240.0 } else { 60.0 };
+    TIMEOUT_CAP_MS.store(8_000, std::sync::atomic::Ordering::Relaxed);
+    let r = minimise_inner(scn, first, thorough, effort, t0, wall_budget_s);
+    TIMEOUT_CAP_MS.store(u64::MAX, std::sync::atomic::Ordering::Relaxed);
+    r
+}
+
+fn minimise_inner(scn: &dyn Scenario, first: &Value, thorough: bool, effort: usize, t0: Instant, wall_budget_s: f64) -> (Spec, RunResult) {
     let seed = first["seed"].as_u64().unwrap_or(0);
     let index = first["run"].as_u64().unwrap_or(0);
     let sig = first["signature"].as_str().unwrap_or("").to_string();
@@ -623,11 +636,11 @@ pub fn minimise(scn: &dyn Scenario, first: &Value, thorough: bool, effort: usize
     let mut tries = 0usize;
     // 1. workload
     let mut changed = true;
-    while changed && tries < effort {
+    while changed && tries < effort && t0.elapsed().as_secs_f64() < wall_budget_s {
         changed = false;
         let cands = scn.shrink(&best.overrides);
         for c in cands {
-            if tries >= effort {
+            if tries >= effort || t0.elapsed().as_secs_f64() > wall_budget_s {
                 break;
             }
             // forced schedule first, then a few fresh schedules
@@ -664,7 +677,7 @@ pub fn minimise(scn: &dyn Scenario, first: &Value, thorough: bool, effort: usize
         let mut dec = dec;
         let mut i = 1;
         let mut budget = effort;
-        while i < dec.len() && budget > 0 {
+        while i < dec.len() && budget > 0 && t0.elapsed().as_secs_f64() < wall_budget_s * 1.5 {
             if dec[i] != dec[i - 1] {
                 // try to extend the previous thread's run over this block
                 let mut cand = dec.clone();
